@@ -167,6 +167,19 @@ struct MElem
     bool operator==(const MElem& o) const { return f == o.f; }
 };
 
+// largest count the count parameter in front of a VaryingSize parameter can hold (by type_name())
+inline size_t count_type_max(const char* tname)
+{
+    const std::string t = tname;
+    if (t == "u8") return 255;
+    if (t == "i8") return 127;
+    if (t == "u16") return 65535;
+    if (t == "i16") return 32767;
+    if (t == "u32") return 4294967295u;
+    if (t == "i32") return 2147483647;
+    return static_cast<size_t>(-1) / 2;
+}
+
 // number of stored objects of the value type with the given name (type_name()) in a model element
 template <class Fields>
 size_t objects_of_type(const Fields& fields, const std::vector<std::vector<int64_t>>& f, const char* tname)
